@@ -275,6 +275,52 @@ def build(tier="quick", seed=0):
     pack.add(Obligation("C18.batch.close[N in 0..5 x batch sizes 1, 2, 3, 1000]", run_close, replay=lambda w: {"call": "c18_batches", "args": {"n": w.get("n", 3), "batch": w.get("batch", 2)}}, functions=FU,
                         mode="concrete histories (a second record type in third position): content after close(), rows visible to an independent connection after every write"))
 
+    def th_evolve_colliding(order):
+        """two versions of one type name whose identifiers coincide (same unseparated field text): each gets its columns, each record its row"""
+        def th():
+            db = fresh()
+            D1 = it.call(RD, ["c18/col", [("string", "host"), ("string", "name")]], {})
+            D2 = it.call(RD, ["c18/col", [("string", "hoststringname")]], {})
+            recs = [it.call(D1, [], {"host": "h", "name": "n"}), it.call(D2, [], {"hoststringname": "x"})]
+            w = writer()
+            out = []
+            for r in (recs if order == "12" else recs[::-1]):
+                try:
+                    it.call(it.getattr_(w, "write"), [r], {})
+                    out.append("written")
+                except PyRaise as e:
+                    out.append(f"raised {e.cls_name}")
+            it.call(it.getattr_(w, "close"), [], {})
+            t = db.tables.get("c18/col", {"cols": [], "rows": []})
+            return out, sorted(c[0] for c in t["cols"] if not c[0].startswith("_")), len(t["rows"])
+        return th
+
+    for order in ("12", "21"):
+        name = f"C18.evolve.colliding[two versions of one name with coinciding identifiers, order {order}]"
+        pack.add(Obligation(name, lambda tier, name=name, order=order: prove_paths(name, th_evolve_colliding(order), lambda p: (p.value == (["written", "written"], ["host", "hoststringname", "name"], 2), f"writes {p.value[0]}, columns {p.value[1]}, rows {p.value[2]}")),
+                            replay=lambda w, order=order: {"call": "c18_evolve_colliding", "args": {"order": order}}, functions=FU, mode="the representative colliding pair, both orders"))
+
+    def th_refused(batch):
+        def th():
+            db = fresh()
+            D = it.call(RD, ["c18/b", [("varint", "n"), ("string", "s")]], {})
+            w = writer(batch)
+            accepted = []
+            for i, v in enumerate([0, 1, 2**80, 3, 4, -(2**70), 5]):
+                try:
+                    it.call(it.getattr_(w, "write"), [it.call(D, [], {"n": v, "s": f"r{i}"})], {})
+                    accepted.append(v)
+                except PyRaise:
+                    pass
+            it.call(it.getattr_(w, "close"), [], {})
+            return accepted, [it.unbase(row[0]) for row in db.tables.get("c18/b", {"rows": []})["rows"]]
+        return th
+
+    for batch in (1, 2, 3, 1000):
+        name = f"C18.batch.refused[batch size {batch}: records the database refuses between accepted ones]"
+        pack.add(Obligation(name, lambda tier, name=name, batch=batch: prove_paths(name, th_refused(batch), lambda p: (p.value[0] == [0, 1, 3, 4, 5] and p.value[1] == [0, 1, 3, 4, 5], f"accepted n={p.value[0]}, stored after close n={p.value[1]}")),
+                            replay=lambda w, batch=batch: {"call": "c18_refused", "args": {"batch": batch}}, functions=FU, mode="concrete history with two refused records, batch sizes 1, 2, 3, 1000"))
+
     def run_strict(tier):
         """the statement itself: another connection never sees part of a batch - also not when a new record type arrives in the middle of one"""
         res = it.explore(th_close(1000, 5))
